@@ -25,6 +25,8 @@ def registry():
         reg.update(props_r.PROPS)
         from . import props_c06
         reg.update(props_c06.PROPS)
+        from . import props_c03
+        reg.update(props_c03.PROPS)
     except ImportError:
         pass
     return reg
